@@ -191,6 +191,8 @@ def gen_sizes(rng):
 
 
 def gen_case(rng, mode=None, focus=None):
+    if focus == 'sizes':
+        mode = 'robsd'
     mode = mode or rng.choice(MODES)
     rows = gen_rows(rng, mode)
     logs = {}
@@ -230,10 +232,14 @@ def gen_case(rng, mode=None, focus=None):
                          rng.choice([0, 1, 2, 3, 5])):
         if nm != me:
             others.append([nm, 'file' if nm == 'afile' or rng.random() < 0.08 else 'dir'])
+    if focus == 'sizes' and not [o for o in others if o[1] == 'dir' and o[0] not in ('attic', '.hidden')]:
+        others.append([rng.choice(['2024-01-01.1', '2024-01-09.1']), 'dir'])
     case['builddir'] = me
     case['others'] = others
     if mode == 'robsd' or rng.random() < 0.2:
         cur, prev = gen_sizes(rng)
+        while focus == 'sizes' and len(cur) < 3:
+            cur, prev = gen_sizes(rng)
     else:
         cur, prev = [], []
     case['rel'] = None if rng.random() < 0.05 else cur
@@ -241,7 +247,7 @@ def gen_case(rng, mode=None, focus=None):
     for nm, kind in others:
         if kind == 'dir' and nm != '.hidden':
             k = rng.random()
-            if k < 0.7:
+            if k < 0.7 or focus == 'sizes':
                 prevrel[nm] = [list(p) for p in prev if rng.random() < 0.9]
             elif k < 0.85:
                 prevrel[nm] = []
@@ -510,3 +516,160 @@ def materialise(ctx, impl, cases, work, offset=0):
         return d, toks, run_report(impl, c, d)
     with ThreadPoolExecutor(16) as ex:
         return list(ex.map(one, enumerate(cases)))
+
+
+# ---------------------------------------------------------------- evaluation shared by c05.py and c18.py
+
+C05_CHECKS = ('exit', 'sane', 'status', 'sections', 'body')
+C18_CHECKS = ('total', 'stepdur', 'sizes', 'shell')
+SIG_D14 = 'log-excerpt-cut-at-nul'
+
+
+def oracle_line(toks, rc, out, rep, sizes_parsable, shell):
+    q = ['oracle'] + toks + [str(rc if rc >= 0 else 999), hexs(out)]
+    if rep is None:
+        q.append('0')
+    else:
+        q += ['1', hexs(rep['subject']), hexs(rep['status']), hexs(rep['duration'])]
+        if sizes_parsable:
+            q += [str(len(rep['sizes']))] + [hexs(l) for l in rep['sizes']]
+        else:
+            q.append('-')
+        q.append(str(len(rep['sections'])))
+        for s in rep['sections']:
+            q += [hexs(s['name']), str(s['exit']), hexs(s['duration']), hexs(s['log']), hexs(s['body'])]
+    q.append('!' if shell is None else hexs(shell.encode()))
+    return ' '.join(q)
+
+
+def classify(pid, check, case, rep, rc):
+    """stable signature of a failed check"""
+    name = check.split(':')[0]
+    rows = case['rows']
+    if name == 'body' and rep is not None:
+        k = int(check.split(':')[1])
+        sec = rep['sections'][k]
+        logname = sec['log'].decode('latin1')
+        c = case['logs'].get(logname)
+        if c is not None:
+            c = bytes.fromhex(c)
+            raw = sec['body'][1:].replace(b'\\r', b'\r')
+            nuls = [i for i, b in enumerate(c) if b == 0]
+            cands = [raw] + ([raw[:-1]] if raw.endswith(b'\n') and not c.endswith(b'\n') else [])
+            if nuls and b'\\x00' not in sec['body'] and any(c[:p].endswith(x) for p in nuls for x in cands):
+                return SIG_D14, 'the excerpt of %s stops at a NUL byte: the lines after it (the last line included) are missing' % logname
+        return 'body-mismatch', 'the text after the Log: line of section %r is not the specified excerpt' % sec['name'].decode('latin1')
+    if name == 'sections':
+        have = [s['name'].decode('latin1') for s in rep['sections']] if rep else []
+        failing = [r['name'] for r in rows if r['skip'] != 1 and r['exit'] != 0]
+        skipped = [r['name'] for r in rows if r['skip'] == 1 and r['name'] not in [x['name'] for x in rows if x['skip'] != 1]]
+        if [f for f in failing if f not in have]:
+            return 'failing-row-without-section', 'a non-skipped row with a non-zero exit has no section'
+        if [s for s in skipped if s in have]:
+            return 'skipped-row-has-section', 'a skipped row has a section'
+        return 'sections-mismatch', 'the sections are not the listed rows in order with name, exit and log name'
+    if name == 'status':
+        failing = [r for r in rows if r['skip'] != 1 and r['exit'] != 0]
+        if failing and rep and rep['status'] == b'ok':
+            return 'failure-reported-as-ok', 'status says ok although a non-skipped row has a non-zero exit'
+        if not failing and rep and rep['status'] != b'ok':
+            return 'ok-reported-as-failure', 'status reports a failure although no non-skipped row failed'
+        return 'status-mismatch', 'subject/status do not name the failing step or the number of failures'
+    if name == 'exit':
+        if rc not in (0, 1):
+            return 'report-abnormal-exit', 'robsd-report terminated with status %d' % rc
+        return 'report-exit-mismatch', 'robsd-report exit %d where the specification says %d' % (rc, 1 - rc)
+    if name == 'sane':
+        return 'nul-or-cr-in-report', 'a NUL or CR byte reached the report'
+    return {'total': ('total-duration-mismatch', 'the Duration: line of the stats block is not the specified total/delta'),
+            'stepdur': ('step-duration-mismatch', 'the Duration: line of a section is not the specified duration/delta'),
+            'sizes': ('size-lines-mismatch', 'the Size: lines are not the specified ones'),
+            'shell': ('shell-total-mismatch', 'duration_total under bash differs from the specified total')}[name]
+
+
+def evaluate(ctx, pid, cases, res, impl, drv, with_shell=0.0):
+    """runs the cases; fills res (disagreements, oracle failures of the checks that belong to pid)"""
+    work = ctx.mkscratch('rpwork')
+    obs = materialise(ctx, impl, cases, work)
+    shell = [None] * len(cases)
+    if with_shell > 0:
+        idx = [i for i in range(len(cases)) if cases[i].get('shell', True) and (with_shell >= 1 or (i * 2654435761 % 1000) / 1000.0 < with_shell)]
+        outs = run_shell_totals(impl, [(cases[i]['mode'], os.path.join(obs[i][0], 'r', cases[i]['builddir'], 'step.csv')) for i in idx])
+        for i, o in zip(idx, outs):
+            shell[i] = o
+    qs = []
+    reps = []
+    for c, (d, toks, (rc, out, err)), sh in zip(cases, obs, shell):
+        rep = parse_report(out) if rc == 0 else None
+        reps.append(rep)
+        tags = c.get('tags')
+        sizes_parsable = tags is None or bytes.fromhex(tags).endswith(b'\n')
+        qs.append('report ' + ' '.join(toks))
+        qs.append(oracle_line(toks, rc, out, rep, sizes_parsable, None if sh in (None, '!') else sh))
+        if sh is not None:
+            qs.append('shtotal ' + ' '.join(toks))
+    ans = common.run_driver(drv, qs, timeout=3000)
+    mine = C05_CHECKS if pid == 'C05' else C18_CHECKS
+    j = 0
+    for c, (d, toks, (rc, out, err)), sh, rep in zip(cases, obs, shell, reps):
+        model, verdict = ans[j], ans[j + 1]
+        j += 2
+        res.evaluations += 1
+        impl_s = '%d %s' % (rc if rc >= 0 else 999, hexs(out))
+        res.count('mode=%s' % c['mode'])
+        res.count('exit=%d' % rc)
+        if model != impl_s:
+            res.disagreements.append({'case': c, 'what': 'robsd-report stdout/exit', 'model': model[:400], 'impl': impl_s[:400],
+                                      'stderr': err[-200:].decode('latin1')})
+        if sh is not None:
+            msh = ans[j]
+            j += 1
+            res.count('shell_totals')
+            if pid == 'C18' and msh != sh:
+                res.disagreements.append({'case': c, 'what': 'duration_total under bash', 'model': msh, 'impl': sh})
+        if rc == 0 and rep is None:
+            res.oracle_failures.append({'case': c, 'signature': 'report-unparsable', 'what': 'exit 0 but the output is not a report',
+                                        'impl': impl_s[:300]})
+        if verdict != 'ok':
+            if verdict.startswith('EXN') or verdict == 'BAD':
+                res.tie_errors.append('oracle driver: ' + verdict[:200])
+                continue
+            for chk in verdict.split(' '):
+                if chk.split(':')[0] not in mine:
+                    continue
+                sig, what = classify(pid, chk, c, rep, rc)
+                res.oracle_failures.append({'case': c, 'signature': sig, 'what': what, 'check': chk,
+                                            'impl': impl_s[:600], 'stderr': err[-200:].decode('latin1')})
+        yield c, rc, out, rep, verdict
+    shutil.rmtree(work, ignore_errors=True)
+
+
+def load_corpus(pid):
+    import glob
+    cases = []
+    for p in sorted(glob.glob(os.path.join(common.VERIF, 'corpus', pid, '*.json'))):
+        j = json.load(open(p))
+        cases.append(j.get('case', j))
+    return cases
+
+
+def replay(ctx, pid, rep):
+    case = rep.get('case') or (rep.get('first_disagreements') or [{}])[0].get('case')
+    if case is None:
+        print(json.dumps(rep, indent=1)[:3000])
+        return 1
+    res = common.Result()
+    impl = ctx.build_impl()
+    drv = build_rp_driver(ctx)
+    for c, rc, out, r, verdict in evaluate(ctx, pid, [case], res, impl, drv, with_shell=1.0 if pid == 'C18' else 0.0):
+        print('mode:', c['mode'])
+        print('rows:', [(x['name'], x['exit'], x['duration'], x['delta'], x['log'], x['skip']) for x in c['rows']])
+        print('implementation: exit %d' % rc)
+        sys_out = out.decode('latin1')
+        print(sys_out if len(sys_out) < 4000 else sys_out[:4000] + '...')
+        print('oracle checks failed:', verdict)
+    print('model vs implementation:', 'agree' if not res.disagreements else res.disagreements)
+    for f in res.oracle_failures:
+        print('ORACLE FAILURE %s: %s' % (f['signature'], f['what']))
+    bad = [f for f in res.oracle_failures if not common.match_known(pid, f['signature'])]
+    return 1 if (res.disagreements or bad) else 0
